@@ -24,6 +24,8 @@
 //	c.RestartJob(workers)                   // crash the job too: every worker dies, new jobs.Job over the same store, new WorkerCount
 //	c.AwaitFlushed(timeout)                 // no live operator has a sealed memtable left to flush
 //	c.InjectReadOutage(w, after, n)         // transient storage outage: n data reads of worker w's table files fail (after `after` more)
+//	script.TimerEvery = 3; script.Advance(); c.TickWatermarks()   // event time: records with ID%3==0 register a timer, Advance
+//	                                        // inserts time markers, TickWatermarks makes the runners send watermarks
 //	c.FireTimers()                          // fire all pending batch time-outs (batch MaxDelay is virtual; Await does it for you)
 //	c.Await(cond, timeout)                  // wait on explicit signals: cond is re-evaluated after every logged observation
 //	c.Log()                                 // snapshot of all observations (invocations, emissions, assignments, acks, published...)
@@ -35,7 +37,9 @@
 // record id (namespace "r", entry key = 4-byte id, value = count byte ++ 4-byte order index), so loss (missing entry)
 // and double application (count 2) are both visible in state; plus ONE summary entry per key (entry key "s", 4-byte
 // number of applications) that is REWRITTEN on every application, so a stale version of a rewritten entry is visible
-// too (Invocation.Sum vs len(Given)); every invocation is logged with the state it was given.
+// too (Invocation.Sum vs len(Given)); with Script.TimerEvery > 0 a share of the records register an event-time timer whose
+// firing records itself in namespace "f" (entry key = timer time, value = number of firings: Invocation.Fired), so a
+// lost or repeated timer effect is visible; every invocation is logged with the state it was given.
 // A Record with Probe=true is not applied: its invocation only records the state of its key (used to read final state
 // through the handler API).
 //
@@ -62,6 +66,7 @@ import (
 
 	"connectrpc.com/connect"
 	gproto "google.golang.org/protobuf/proto"
+	"google.golang.org/protobuf/types/known/timestamppb"
 	"reduction.dev/reduction-protocol/handlerpb"
 	"reduction.dev/reduction-protocol/jobconfigpb"
 	"reduction.dev/reduction/batching"
@@ -88,24 +93,39 @@ type Record struct {
 	ID    uint32 `json:"id"`
 	Key   []byte `json:"key"`
 	Probe bool   `json:"probe,omitempty"`
+	// Event time (seconds) and, if > 0, the event-time timer (seconds) the reference handler registers when it applies the
+	// record; both are stamped by the Script when the record is released (see Script.Advance). A Marker record only
+	// carries event time (it advances the runner's watermark) and is ignored by the handler.
+	TS     int64 `json:"ts,omitempty"`
+	Timer  int64 `json:"timer,omitempty"`
+	Marker bool  `json:"marker,omitempty"`
 }
 
 func (r Record) encode() []byte {
-	b := make([]byte, 5+len(r.Key))
+	b := make([]byte, 21+len(r.Key))
 	if r.Probe {
-		b[0] = 1
+		b[0] |= 1
+	}
+	if r.Marker {
+		b[0] |= 2
 	}
 	binary.BigEndian.PutUint32(b[1:], r.ID)
-	copy(b[5:], r.Key)
+	binary.BigEndian.PutUint64(b[5:], uint64(r.TS))
+	binary.BigEndian.PutUint64(b[13:], uint64(r.Timer))
+	copy(b[21:], r.Key)
 	return b
 }
 
 func DecodeRecord(b []byte) (Record, error) {
-	if len(b) < 5 {
+	if len(b) < 21 {
 		return Record{}, fmt.Errorf("short record")
 	}
-	return Record{Probe: b[0] == 1, ID: binary.BigEndian.Uint32(b[1:]), Key: append([]byte{}, b[5:]...)}, nil
+	return Record{Probe: b[0]&1 != 0, Marker: b[0]&2 != 0, ID: binary.BigEndian.Uint32(b[1:]), TS: int64(binary.BigEndian.Uint64(b[5:])),
+		Timer: int64(binary.BigEndian.Uint64(b[13:])), Key: append([]byte{}, b[21:]...)}, nil
 }
+
+// MarkerKey is the subject key of marker records.
+var MarkerKey = []byte("~marker")
 
 // Script is the data of the scripted multi-split source, shared by all readers of all generations.
 type Script struct {
@@ -113,6 +133,13 @@ type Script struct {
 	splits [][]Record
 	allow  []int
 	wake   chan struct{}
+	// event time: `epoch` = number of Advance calls so far. A record released in epoch k gets TS = 1000(k+1) and, when
+	// TimerEvery > 0 and ID % TimerEvery == 0, Timer = TS + 1 + ID%400; Advance number j inserts a marker with TS = 1000j+999
+	// at the release frontier of EVERY split. So a record's timer lies after every marker before it and before the next
+	// marker after it in its own split: it can never be late, and it fires exactly when all runners passed that next marker.
+	epoch      int
+	markers    int
+	TimerEvery int
 }
 
 func NewScript(splits [][]Record) *Script {
@@ -144,10 +171,43 @@ func (s *Script) Append(split int, recs ...Record) {
 // Allow lets readers return n more records of the split (n < 0: everything there is).
 func (s *Script) Allow(split, n int) {
 	s.mu.Lock()
+	old := s.allow[split]
 	if n < 0 || s.allow[split]+n > len(s.splits[split]) {
 		s.allow[split] = len(s.splits[split])
 	} else {
 		s.allow[split] += n
+	}
+	for i := old; i < s.allow[split]; i++ {
+		s.stamp(&s.splits[split][i])
+	}
+	s.mu.Unlock()
+	s.Poke()
+}
+
+func (s *Script) stamp(r *Record) {
+	if r.TS != 0 {
+		return
+	}
+	r.TS = int64(1000 * (s.epoch + 1))
+	if s.TimerEvery > 0 && !r.Probe && !r.Marker && int(r.ID)%s.TimerEvery == 0 {
+		r.Timer = r.TS + 1 + int64(r.ID%400)
+	}
+}
+
+// Advance moves event time forward: a marker record is inserted at the release frontier of every split (and released).
+// After every runner has read its marker and sent a watermark (Cluster.TickWatermarks), all timers registered by records
+// released before this call are due.
+func (s *Script) Advance() {
+	s.mu.Lock()
+	s.epoch++
+	for i := range s.splits {
+		s.markers++
+		m := Record{ID: uint32(2000000 + s.markers), Key: MarkerKey, Marker: true, TS: int64(1000*s.epoch + 999)}
+		at := s.allow[i]
+		sp := append([]Record{}, s.splits[i][:at]...)
+		sp = append(sp, m)
+		s.splits[i] = append(sp, s.splits[i][at:]...)
+		s.allow[i]++
 	}
 	s.mu.Unlock()
 	s.Poke()
@@ -265,8 +325,10 @@ type reader struct {
 }
 
 func (r *reader) AssignSplits(splits []*workerpb.SourceSplit) error {
-	if r.w.sr != nil { // no wall-clock watermark ticks: the harness owns time
-		r.w.sr.VerifSetWatermarkTicks(make(chan time.Time))
+	if r.w.sr != nil { // no wall-clock watermark ticks: the harness owns time (Cluster.TickWatermarks)
+		ch := make(chan time.Time)
+		r.w.wmTicks.Store(&ch)
+		r.w.sr.VerifSetWatermarkTicks(ch)
 	}
 	for _, sp := range splits {
 		i := splitIndex(sp.SplitId)
@@ -300,10 +362,12 @@ func (r *reader) ReadEvents() ([][]byte, error) {
 		from := r.pos[sp]
 		r.pos[sp] += len(recs)
 		out := make([][]byte, len(recs))
-		ids := make([]uint32, len(recs))
+		ids := make([]uint32, 0, len(recs))
 		for i, rc := range recs {
 			out[i] = rc.encode()
-			ids[i] = rc.ID
+			if !rc.Marker { // markers are never applied: they are not waited for
+				ids = append(ids, rc.ID)
+			}
 		}
 		r.c.log.add(func(l *Log) {
 			l.Emissions = append(l.Emissions, Emission{Gen: r.w.gen.Load(), Worker: r.w.idx, Split: sp, From: from, To: from + len(recs), IDs: ids})
@@ -336,6 +400,7 @@ type Entry struct {
 	Ord   uint32 `json:"ord"`
 }
 type Invocation struct {
+	Seq    uint64  `json:"seq"` // position in the global observation order (comparable with Fault.Seq)
 	Gen    int64   `json:"gen"`
 	Worker int     `json:"worker"`
 	Key    []byte  `json:"key"`
@@ -343,7 +408,12 @@ type Invocation struct {
 	Probe  bool    `json:"probe,omitempty"`
 	First  bool    `json:"first"` // first event of this key in its batch: Given is exactly the KeyState of the request
 	Given  []Entry `json:"given"` // state the application of this record started from (sorted by id)
+	Fired  []Fired `json:"fired"` // the timers of the key that have fired according to the state given (namespace "f")
 	Sum    int64   `json:"sum"`   // the key's summary entry (rewritten on EVERY application: number of applications so far) as given; 0 if absent
+}
+type Fired struct {
+	TS    int64  `json:"ts"`
+	Count uint32 `json:"count"`
 }
 type Emission struct {
 	Gen      int64
@@ -357,6 +427,18 @@ type Assignment struct {
 	Worker int
 	Split  int
 	Cursor int
+}
+type Fault struct {
+	Seq    uint64
+	Gen    int64
+	Worker int
+}
+type Fire struct {
+	Gen    int64
+	Worker int
+	Key    []byte
+	TS     int64
+	Count  uint32 // firings of this timer recorded in state after this one (1 unless it fired twice)
 }
 type DeployStart struct {
 	Seq uint64
@@ -397,6 +479,8 @@ type Log struct {
 	Published    []Published
 	Deploys      []string      // "gen:opid:jobseq" per operator deploy
 	Tickers      []int64       // generation at each registration of the job's "checkpointing" ticker
+	Fires        []Fire        // timer firings seen by the reference handler
+	Faults       []Fault       // injected storage read failures, at the moment the read failed
 	DeployStarts []DeployStart // first Deploy call of every generation (the job has chosen its checkpoint by then)
 	Errors       []string      // errors/panics seen at adapter boundaries and on the job's ErrChan
 }
@@ -526,6 +610,7 @@ type worker struct {
 	dead     chan struct{}
 	deadOnce sync.Once
 	// storage fault injection: data-region reads of table files, counted per worker; reads numbered in (outFrom, outTo] fail
+	wmTicks atomic.Pointer[chan time.Time] // the watermark ticker channel of the runner's current deployment
 	reads   atomic.Int64
 	outFrom atomic.Int64
 	outTo   atomic.Int64
@@ -766,6 +851,7 @@ func (f *faultFile) ReadAt(p []byte, off int64) (int, error) {
 	if es > 0 && off < es {
 		n := f.w.reads.Add(1)
 		if n > f.w.outFrom.Load() && n <= f.w.outTo.Load() {
+			f.c.log.add(func(l *Log) { l.Faults = append(l.Faults, Fault{Seq: l.Seq, Gen: f.w.gen.Load(), Worker: f.w.idx}) })
 			return 0, errStorageOutage
 		}
 	}
@@ -1268,6 +1354,26 @@ func (c *Cluster) AwaitPublished(id uint64, timeout time.Duration) bool {
 	}, timeout)
 }
 
+// TickWatermarks makes every live source runner emit a watermark now (stamped with its current event-time watermark when
+// it is sent, i.e. after everything the runner has read so far).
+func (c *Cluster) TickWatermarks() {
+	c.mu.Lock()
+	ws := append([]*worker{}, c.workers...)
+	c.mu.Unlock()
+	for _, w := range ws {
+		if w.isDead() {
+			continue
+		}
+		if ch := w.wmTicks.Load(); ch != nil {
+			select {
+			case *ch <- time.Now():
+			case <-w.dead:
+			case <-time.After(50 * time.Millisecond):
+			}
+		}
+	}
+}
+
 // FireTimers fires every pending batch time-out of every live worker; returns how many callbacks ran.
 func (c *Cluster) FireTimers() int {
 	c.mu.Lock()
@@ -1323,7 +1429,7 @@ func (c *Cluster) Log() Log {
 			Invocations: append([]Invocation{}, l.Invocations...), Emissions: append([]Emission{}, l.Emissions...),
 			Assignments: append([]Assignment{}, l.Assignments...), Restores: append([]Restore{}, l.Restores...),
 			Acks: append([]AckObs{}, l.Acks...), Started: append([]uint64{}, l.Started...),
-			Published: append([]Published{}, l.Published...), Deploys: append([]string{}, l.Deploys...), Tickers: append([]int64{}, l.Tickers...), DeployStarts: append([]DeployStart{}, l.DeployStarts...), Errors: append([]string{}, l.Errors...),
+			Published: append([]Published{}, l.Published...), Deploys: append([]string{}, l.Deploys...), Tickers: append([]int64{}, l.Tickers...), DeployStarts: append([]DeployStart{}, l.DeployStarts...), Fires: append([]Fire{}, l.Fires...), Faults: append([]Fault{}, l.Faults...), Errors: append([]string{}, l.Errors...),
 		}
 	})
 	return out
@@ -1601,12 +1707,44 @@ func (h *refHandler) KeyEventBatch(ctx context.Context, events [][]byte) ([][]*h
 		if err != nil {
 			return nil, err
 		}
-		out[i] = []*handlerpb.KeyedEvent{{Key: r.Key, Value: e}}
+		out[i] = []*handlerpb.KeyedEvent{{Key: r.Key, Value: e, Timestamp: timestamppb.New(time.Unix(r.TS, 0))}}
 	}
 	return out, nil
 }
 
 const sumID = 0xFFFFFFF0 // pseudo id under which the summary entry travels inside the handler (never logged in Given)
+const firedNS = "f"
+
+type keyState struct {
+	recs  map[uint32]Entry
+	fired map[int64]uint32
+}
+
+func decodeKeyState(ks *handlerpb.KeyState) *keyState {
+	st := &keyState{recs: decodeEntries(ks), fired: map[int64]uint32{}}
+	for _, ns := range ks.GetStateEntryNamespaces() {
+		if ns.Namespace != firedNS {
+			continue
+		}
+		for _, e := range ns.Entries {
+			if len(e.Key) == 8 && len(e.Value) == 1 {
+				st.fired[int64(binary.BigEndian.Uint64(e.Key))] += uint32(e.Value[0])
+			} else {
+				st.fired[-1] = 99
+			}
+		}
+	}
+	return st
+}
+
+func sortedFired(m map[int64]uint32) []Fired {
+	out := make([]Fired, 0, len(m))
+	for ts, c := range m {
+		out = append(out, Fired{TS: ts, Count: c})
+	}
+	sort.Slice(out, func(i, j int) bool { return out[i].TS < out[j].TS })
+	return out
+}
 
 func decodeEntries(ks *handlerpb.KeyState) map[uint32]Entry {
 	m := map[uint32]Entry{}
@@ -1639,20 +1777,54 @@ func sortedEntries(m map[uint32]Entry) []Entry {
 	return out
 }
 
+func put(key, val []byte) *handlerpb.StateMutation {
+	return &handlerpb.StateMutation{Mutation: &handlerpb.StateMutation_Put{Put: &handlerpb.PutMutation{Key: key, Value: val}}}
+}
+
 func (h *refHandler) ProcessEventBatch(ctx context.Context, req *handlerpb.ProcessEventBatchRequest) (*handlerpb.ProcessEventBatchResponse, error) {
 	if h.w.isDead() {
 		return nil, errDead
 	}
-	states := map[string]map[uint32]Entry{}
-	given := map[string]bool{}
+	states := map[string]*keyState{}
 	for _, ks := range req.KeyStates {
-		states[string(ks.Key)] = decodeEntries(ks)
-		given[string(ks.Key)] = true
+		states[string(ks.Key)] = decodeKeyState(ks)
 	}
 	touched := map[string]bool{}
-	muts := map[string][]*handlerpb.StateMutation{}
+	type result struct {
+		recMuts, firedMuts []*handlerpb.StateMutation
+		timers             []*timestamppb.Timestamp
+	}
+	results := map[string]*result{}
 	var order []string
+	res := func(k string) *result {
+		if results[k] == nil {
+			results[k] = &result{}
+			order = append(order, k)
+		}
+		return results[k]
+	}
+	state := func(k string) *keyState {
+		st, ok := states[k]
+		if !ok {
+			st = &keyState{recs: map[uint32]Entry{0xFFFFFFFE: {ID: 0xFFFFFFFE, Count: 98}}, fired: map[int64]uint32{}} // no KeyState supplied: visible
+			states[k] = st
+		}
+		return st
+	}
 	for _, ev := range req.Events {
+		if te := ev.GetTimerExpired(); te != nil {
+			// a timer fires: its effect on keyed state is one more firing recorded under its timestamp
+			k := string(te.Key)
+			st := state(k)
+			ts := te.Timestamp.AsTime().Unix()
+			st.fired[ts]++
+			key := make([]byte, 8)
+			binary.BigEndian.PutUint64(key, uint64(ts))
+			res(k).firedMuts = append(res(k).firedMuts, put(key, []byte{byte(st.fired[ts])}))
+			fire := Fire{Gen: h.w.gen.Load(), Worker: h.w.idx, Key: append([]byte{}, te.Key...), TS: ts, Count: st.fired[ts]}
+			h.c.log.add(func(l *Log) { l.Fires = append(l.Fires, fire) })
+			continue
+		}
 		ke := ev.GetKeyedEvent()
 		if ke == nil {
 			continue
@@ -1661,6 +1833,9 @@ func (h *refHandler) ProcessEventBatch(ctx context.Context, req *handlerpb.Proce
 		if err != nil {
 			return nil, err
 		}
+		if r.Marker {
+			continue
+		}
 		if hk := h.c.opts.Hooks.BeforeApply; hk != nil {
 			hk(h.w.idx, r)
 		}
@@ -1668,48 +1843,50 @@ func (h *refHandler) ProcessEventBatch(ctx context.Context, req *handlerpb.Proce
 			return nil, errDead
 		}
 		k := string(ke.Key)
-		st, ok := states[k]
-		if !ok {
-			st = map[uint32]Entry{0xFFFFFFFE: {ID: 0xFFFFFFFE, Count: 98}} // no KeyState supplied for the key: visible
-			states[k] = st
-		}
-		sum := st[sumID]
-		delete(st, sumID)
-		inv := Invocation{Gen: h.w.gen.Load(), Worker: h.w.idx, Key: append([]byte{}, ke.Key...), Rec: r.ID, Probe: r.Probe, First: !touched[k], Given: sortedEntries(st), Sum: int64(sum.Count)}
+		st := state(k)
+		sum := st.recs[sumID]
+		delete(st.recs, sumID)
+		inv := Invocation{Gen: h.w.gen.Load(), Worker: h.w.idx, Key: append([]byte{}, ke.Key...), Rec: r.ID, Probe: r.Probe, First: !touched[k],
+			Given: sortedEntries(st.recs), Fired: sortedFired(st.fired), Sum: int64(sum.Count)}
 		touched[k] = true
 		if !r.Probe {
 			sum = Entry{ID: sumID, Count: sum.Count + 1}
 			sval := make([]byte, 4)
 			binary.BigEndian.PutUint32(sval, sum.Count)
-			if _, seen := muts[k]; !seen {
-				order = append(order, k)
-			}
-			muts[k] = append(muts[k], &handlerpb.StateMutation{Mutation: &handlerpb.StateMutation_Put{Put: &handlerpb.PutMutation{Key: []byte{'s'}, Value: sval}}})
-			e := st[r.ID]
+			rs := res(k)
+			rs.recMuts = append(rs.recMuts, put([]byte{'s'}, sval))
+			e := st.recs[r.ID]
 			if e.Count == 0 {
-				e = Entry{ID: r.ID, Ord: uint32(len(st))}
+				e = Entry{ID: r.ID, Ord: uint32(len(st.recs))}
 			}
 			e.Count++
-			st[r.ID] = e
+			st.recs[r.ID] = e
 			key := make([]byte, 4)
 			binary.BigEndian.PutUint32(key, r.ID)
 			val := make([]byte, 5)
 			val[0] = byte(e.Count)
 			binary.BigEndian.PutUint32(val[1:], e.Ord)
-			if _, seen := muts[k]; !seen {
-				order = append(order, k)
+			rs.recMuts = append(rs.recMuts, put(key, val))
+			if r.Timer > 0 {
+				rs.timers = append(rs.timers, timestamppb.New(time.Unix(r.Timer, 0)))
 			}
-			muts[k] = append(muts[k], &handlerpb.StateMutation{Mutation: &handlerpb.StateMutation_Put{Put: &handlerpb.PutMutation{Key: key, Value: val}}})
 		}
 		if sum.Count > 0 {
-			st[sumID] = sum
+			st.recs[sumID] = sum
 		}
-		h.c.log.add(func(l *Log) { l.Invocations = append(l.Invocations, inv) })
+		h.c.log.add(func(l *Log) { inv.Seq = l.Seq; l.Invocations = append(l.Invocations, inv) })
 	}
 	resp := &handlerpb.ProcessEventBatchResponse{}
 	for _, k := range order {
-		resp.KeyResults = append(resp.KeyResults, &handlerpb.KeyResult{Key: []byte(k),
-			StateMutationNamespaces: []*handlerpb.StateMutationNamespace{{Namespace: stateNS, Mutations: muts[k]}}})
+		rs := results[k]
+		kr := &handlerpb.KeyResult{Key: []byte(k), NewTimers: rs.timers}
+		if len(rs.recMuts) > 0 {
+			kr.StateMutationNamespaces = append(kr.StateMutationNamespaces, &handlerpb.StateMutationNamespace{Namespace: stateNS, Mutations: rs.recMuts})
+		}
+		if len(rs.firedMuts) > 0 {
+			kr.StateMutationNamespaces = append(kr.StateMutationNamespaces, &handlerpb.StateMutationNamespace{Namespace: firedNS, Mutations: rs.firedMuts})
+		}
+		resp.KeyResults = append(resp.KeyResults, kr)
 	}
 	return resp, nil
 }
